@@ -34,7 +34,7 @@ pub struct MStep {
 pub const TICKS: [u32; 4] = [1, 2, 3, 5];
 
 fn ticks<const A: usize>() -> [u32; A] {
-    core::array::from_fn(|i| TICKS[i])
+    core::array::from_fn(|i| TICKS[i % 4])
 }
 
 struct World<const A: usize, const L: usize> {
@@ -47,7 +47,7 @@ impl<const A: usize, const L: usize> World<A, L> {
     fn new() -> Self {
         World {
             market: Market::new(0, ticks::<A>(), true),
-            shadows: (0..A).map(|i| OrderBook::<L>::new(0, TICKS[i], true)).collect(),
+            shadows: (0..A).map(|i| OrderBook::<L>::new(0, TICKS[i % 4], true)).collect(),
             trading: true,
         }
     }
@@ -275,7 +275,7 @@ fn alphabet<const A: usize>(cfg: &MCfg, shadows: &[Snap], trading: bool) -> Vec<
     let mut v = Vec::new();
     let routes: &[bool] = if cfg.events { &[false, true] } else { &[false] };
     for a in 0..A {
-        let tick = TICKS[a];
+        let tick = TICKS[a % 4];
         let prices = [2 * tick, 3 * tick];
         let vols: &[u32] = if cfg.two_vols { &[1, 2] } else { &[2] };
         for bid in [true, false] {
@@ -542,7 +542,7 @@ fn absorb(out: &mut Outcome, label: &str, assets: usize, levels: usize, depth: u
         out.fail_other(
             &format!("{}/{}", sig_prefix, sig),
             detail,
-            json!({"engine": "marketx", "assets": assets, "levels": levels, "ticks": &TICKS[..assets],
+            json!({"engine": "marketx", "assets": assets, "levels": levels, "ticks": (0..assets).map(|i| TICKS[i % 4]).collect::<Vec<_>>(),
                    "steps": h.iter().map(|x| format!("+{} {:?}", x.dt, x.op)).collect::<Vec<_>>()}),
         );
     }
@@ -565,6 +565,8 @@ pub fn c14_market_part(out: &mut Outcome, t: bool) {
     absorb(out, "Market<2>: zero-volume placements and modifications", 2, 3, z.depth, run_market::<2, 3>(&z), "market");
     let at = MCfg { depth: if t { 4 } else { 3 }, reload_modes: vec![], events: false, toggles: true, modify: true, create_place: false, offgrid: false, two_vols: false, asset_toggles: true, zero_vols: false };
     absorb(out, "Market<3>: per-asset toggles through get_order_book_mut", 3, 2, at.depth, run_market::<3, 2>(&at), "market");
+    let many = MCfg { depth: if t { 3 } else { 2 }, reload_modes: vec![], events: false, toggles: true, modify: true, create_place: false, offgrid: false, two_vols: false, asset_toggles: true, zero_vols: false };
+    absorb(out, "Market<12,2>: two-digit asset counts", 12, 2, many.depth, run_market::<12, 2>(&many), "market");
     let a4 = MCfg { depth: if t { 4 } else { 3 }, reload_modes: vec![], events: false, toggles: true, modify: true, create_place: false, offgrid: true, two_vols: false, asset_toggles: false, zero_vols: false };
     absorb(out, "Market<4>: four ticks", 4, 3, a4.depth, run_market::<4, 3>(&a4), "market");
 }
@@ -583,4 +585,8 @@ pub fn c07_market_part(out: &mut Outcome, t: bool) {
     absorb(out, "Market<2,3>: reload (memory/compact/pretty) as an operation", 2, 3, c2.depth, run_market::<2, 3>(&c2), "market-reload");
     let c3 = MCfg { depth: if t { 4 } else { 3 }, reload_modes: vec![0, 2], events: false, toggles: true, modify: true, create_place: false, offgrid: false, two_vols: false, asset_toggles: false, zero_vols: false };
     absorb(out, "Market<3,2>: reload as an operation", 3, 2, c3.depth, run_market::<3, 2>(&c3), "market-reload");
+    // two-digit asset counts
+    let c12 = MCfg { depth: if t { 3 } else { 2 }, reload_modes: vec![0, 1], events: false, toggles: true, modify: false, create_place: false, offgrid: false, two_vols: false, asset_toggles: false, zero_vols: false };
+    absorb(out, "Market<12,2>: reload as an operation", 12, 2, c12.depth, run_market::<12, 2>(&c12), "market-reload");
+    absorb(out, "Market<25,1>: reload as an operation", 25, 1, 2, run_market::<25, 1>(&MCfg { depth: 2, ..c12 }), "market-reload");
 }
